@@ -22,6 +22,21 @@ CLAIMS = {
     "C19": ("Proof, for all batches and all behaviours of the abstract services, that the auditor and monitor task closures raise an alert iff the verification they reached returned false (ghost counters alerts / verifyCalls / lastVerify defined by the contracts of Notifier.Alert and client.*Verify), perform at most one verification, and that the publisher task calls PutBatch at most once; plus panic-freedom of the three factories and tasks on arbitrary gossiped batches.",
             "Assumes: contracts of the services (Notifier, SnapshotStore, Cache, QED client) as ghost bookkeeping; 'no alert on an honest log' additionally needs completeness of the proofs (C01/C03), not proved here; publisher 'never forwards the same snapshot twice' relies on the cache contract (not modelled beyond at-most-one PutBatch per task).",
             "DESIGN.md section 4, C19"),
+    "C05": ("Proof, for every call and therefore for every sequential history, of the version arithmetic on the real code: Balloon.Add gives the event the current version and advances it by one; Balloon.AddBulk advances it by len(bulk), returns one snapshot per event and (quantified loop invariant) the k-th snapshot carries version old+k and the k-th event digest; fsmState.shouldApply never accepts an index at or below the last applied one and only accepts a strictly larger balloon version; RaftNode.applyAdd advances the balloon by len(hashes); RefreshVersion, Version. One genuine defect (empty bulk) found, replayed and fixed.",
+            "Assumes: the history/hyper tree insertion contracts (unverified tree internals: results have one digest per event); raft delivers committed entries once, in index order; Store.Mutate atomic; the history table holds 10-byte position keys; restarts/leader changes are consequences of these assumptions, not separately decided.",
+            "DESIGN.md section 4, C05"),
+    "C07": ("Narrow claim, proved: one Apply of a fresh entry performs EXACTLY ONE store write (ghost counter on Store.Mutate) whose mutation list ends with the FSM-state mutation (trees and state in the same batch), n.state is advanced only after it, an already applied entry (index <= last applied) writes nothing, and at most one write happens per Apply.",
+            "Not decided: what happens between those steps at an arbitrary instant (RocksDB write-batch atomicity, raft log replay) - assumed. Store.Mutate's ghost bookkeeping defines what 'a write' is.",
+            "DESIGN.md section 4, C07"),
+    "C11": ("Proof of panic-freedom for ALL request contents of the public and management HTTP handlers (Add, AddBulk, Membership, DigestMembership, Incremental, Info*, HealthCheck, sanitizers, backup handlers), of RaftNode.Add/AddBulk/Query*, Balloon.Query*, HyperTree.QueryMembership's input guard and of the FSM Apply/applyAdd path under the proposer's guarantees; an empty bulk is never proposed (ghost counter on propose) and an already committed empty command is answered with an error. Three genuine defects found, replayed and fixed (empty bulk, missing backupID, 33-byte digest).",
+            "Assumes: net/http hands handlers non-nil writer/request/URL and recovers nothing for us; JSON decoding yields arbitrary well-typed values; the ClientApi behind the handlers is a RaftNode as contracted; hyper-tree search/insert internals unverified beyond their stated preconditions; the 'tampered store' explicit panics and log.Fatalf exits are by design; memory exhaustion by oversized bodies not modelled.",
+            "DESIGN.md section 4, C11"),
+    "C18": ("Proved per call: Agent.Send forwards nothing and leaves the message untouched when its TTL is not positive, and lowers the TTL by exactly one otherwise (ghost counter on the transport); every access to Topology.m in Update/Delete/Get/Each happens with the topology mutex held (lock-discipline obligations from a `guarded` declaration). Two genuine defects found, replayed (one with the race detector) and fixed.",
+            "Not decided: 'never routes to itself' (needs functional contracts for PeerList.Filter/Exclude with closures: Agent.route's contract is UNVERIFIED), 'tasks run at most once per batch' (cache eviction), interleavings of joins/leaves/sends. Lock discipline is a necessary condition for race freedom, not a proof of it.",
+            "DESIGN.md section 4, C18"),
+    "C20": ("Proof, for all topologies and preferences, with loop invariants (quantified round-robin bookkeeping) on the real topology.NextReadEndpoint: a returned endpoint is never dead and is permitted by the read preference; 'no endpoint' is answered only when no live permitted endpoint existed (completeness, all five preferences); a returned secondary is the FIRST live one after the old cursor in cyclic order and the cursor moves onto it; all loops terminate (decreasing measures). callPrimary sends at most one request and only to the endpoint the topology names as primary, and its retry loop terminates; BackoffRequestRetrier.DoReq terminates within maxRetries+1 attempts.",
+            "Not decided: callAny's termination (needs a cardinality measure over live endpoints); convergence on a new leader after discovery/redirect (liveness across requests).",
+            "DESIGN.md section 4, C20"),
 }
 
 NA = {
